@@ -106,7 +106,7 @@ def run_history(rng, maxlen, thorough, record):
                     ub.set_ub(rng.choice([[[1, 0], [0, 1]], np.eye(4)])); out = "ok-unexpected"
                 elif k == "setMiscut":
                     axis = rng.choice([(1, 0, 0), (0, 1, 0), (1, 1, 0), tuple(rng.uniform(-1, 1) for _ in range(3)), None])
-                    angle = rng.choice([rng.uniform(-170, 170), 30.0, 90.0, 0.0])
+                    angle = rng.choice([rng.uniform(-170, 170), 30.0, 90.0, 0.0, rng.uniform(-170, 170), (10.0 ** rng.uniform(-6, -2)) * rng.choice((-1, 1))])     # incl. minute corrections
                     add = rng.random() < 0.5
                     info.update(axis=axis, angle=angle, add=add, prevU=None if ub.U is None else np.array(ub.U))
                     ub.set_miscut(axis, angle, add)
@@ -225,7 +225,7 @@ def oracle(ctx, widen=1):
             want = rodrigues(axis, radians(info["angle"]))
             if info["add"] and info["prevU"] is not None:
                 want = want @ info["prevU"]
-            if np.abs(np.asarray(ub.U) - want).max() > 1e-8:
+            if np.abs(np.asarray(ub.U) - want).max() > 1e-10:
                 bad = f"set_miscut({info['axis']}, {info['angle']}, add={info['add']}) did not make U the right-handed rotation about the axis" + (" composed on the left of the previous U" if info["add"] else "")
         if not bad and k == "calcUb" and out == "ok":
             if np.abs(np.asarray(ub.U) - info["U0"]).max() > 1e-7:
@@ -248,12 +248,15 @@ def oracle(ctx, widen=1):
         ub.surf_nphi = tuple(sn)
         e1 = np.cross(sn, [1.0, 0.3, 0.2]); e1 /= np.linalg.norm(e1); e2 = np.cross(sn, e1)
         axis = (cos(phi) * e1 + sin(phi) * e2) * ctx.rng.choice([1.0, 2.5])
-        angle = ctx.rng.choice([ctx.rng.uniform(1, 179), 90.0, 45.0])
+        small = 10.0 ** ctx.rng.uniform(-4, -1.5)
+        angle = ctx.rng.choice([ctx.rng.uniform(1, 179), 90.0, 45.0, small, small, 180.0 - small])      # incl. the small miscuts real samples have
         with quiet():
             ub.set_miscut(tuple(axis), angle)
         a, ax = ub.get_miscut()
         cases[0] += 1
-        if abs(a - angle) > 1e-6 or np.abs(ax.T[0] - axis / np.linalg.norm(axis)).max() > 1e-6:
+        t = radians(angle)
+        cond = 4e-16 / max(abs(sin(t)), 1e-12)          # acos near 0 / 180 deg loses this much (rad)
+        if abs(a - angle) > 1e-6 + math.degrees(cond) or np.abs(ax.T[0] - axis / np.linalg.norm(axis)).max() > 1e-6 + 10 * cond:
             ctx.violation(f"get_miscut after set_miscut({axis.tolist()}, {angle}) with surface normal {sn.tolist()} returned angle {a}, axis {ax.T[0].tolist()}",
                           {"axis": axis.tolist(), "angle": angle, "surface": sn.tolist()}, {"kind": "get-miscut"})
     ctx.stream("oracle:ub-invariant", cases[0], len(combos), histories=n)
